@@ -1819,6 +1819,10 @@ func Expire() int {
 
 	verifhook.Point("tor.expire.sampled")
 	count := count()
+	if count == 0 {
+		// the torrents have gone away in the meantime
+		return 0
+	}
 	fair := low / int64(count)
 
 	bigcount := 0
@@ -1834,6 +1838,10 @@ func Expire() int {
 	})
 
 	verifhook.Point("tor.expire.walked")
+	if bigcount == 0 {
+		// ditto, or they have shrunk
+		return 0
+	}
 	fair2 := (low - smallspace) / int64(bigcount)
 
 	Range(func(h hash.Hash, t *Torrent) bool {
